@@ -10,8 +10,23 @@ from .ctx import NeedFork, PathEnd
 from .ops import vconst, is_num, to_real_z, to_int_z
 
 
+import math as _math
+
+
 class Builtins:
-    ext_attrs_plain = {}
+    ext_attrs_plain = {
+        "numpy.nan": lambda it, node: vconst(float("nan")),
+        "numpy.inf": lambda it, node: vconst(float("inf")),
+        "math.inf": lambda it, node: vconst(float("inf")),
+        "numpy.pi": lambda it, node: it.pi_value(),
+        "math.pi": lambda it, node: it.pi_value(),
+    }
+
+    def pi_value(self):
+        """pi as a symbolic real constant constrained to a rational enclosure (trigonometry is uninterpreted anyway)"""
+        pi = z3.Real("pi")
+        self.ctx.assume(z3.And(pi > z3.RealVal("3.14159265358979"), pi < z3.RealVal("3.14159265358980")))
+        return VReal(pi)
 
     # ------------------------------------------------------------------ dict / set helpers
     def key_eq_static(self, a, b, node):
